@@ -167,6 +167,26 @@ def corpus_cases(rng, sample_long, chunk=40):
     return out
 
 
+def long_tail_cases():
+    """Errors followed by MORE than TRY_PARSE_AT_MOST (250) error-free lexemes: only there does the cap of the ranking
+    parse (in_laidx + TRY_PARSE_AT_MOST) bind, so only there can candidates that consume different amounts of input be
+    told apart wrongly (a cap taken relative to the position AFTER the repair favours deleting sequences)."""
+    out = []
+    sm = dict(small_grammars())
+    g = sm["sum"]
+    tail = ["+", "n"] * 140
+    ins = [["n", "+", "+", "n"] + tail, ["n", "n"] + tail, ["+", "n"] + tail, ["(", "n", "+", "+", "n", ")"] + tail,
+           ["n", "+", ")", "n"] + tail]
+    for av in (None, "n", "+"):
+        g2 = Gram(g.tokens, [(n, [(list(sy), p) for sy, p in ps]) for n, ps in g.rules], precs=g.precs, start=g.start,
+                  avoid_insert=[av] if av else [])
+        out.append(("longtail_sum", g2, "unit", {}, ins))
+    g = sm["seq"]
+    tail = ["semi", "n"] * 140
+    out.append(("longtail_seq", g, "unit", {}, [["n", "semi", "semi", "n"] + tail, ["n", "n"] + tail, ["(", "semi", "n"] + tail]))
+    return out
+
+
 def gen_cases(ctx, n_cases, n_inputs):
     """-> list of (family, Gram, costname, costs dict, inputs)"""
     rng = ctx.rng
